@@ -85,6 +85,7 @@ def main(argv=None):
         seed, v = items[0]
         sc = prop.generate(seed, tier)
         small = shrink.minimise(prop, sc, key)
+        bootstrap.reset_process_state()
         sim = prop.execute(small)
         vv = [x for x in sim.violations if (x["oracle"], x["site"]) == key]
         small["expect"] = {"oracle": key[0], "site": key[1], "digest": sim.log_digest(), "detail": vv[0]["detail"] if vv else None}
